@@ -73,6 +73,26 @@ func c17PKI() []*c17Root {
 			c, _ := stdx509.ParseCertificate(der)
 			c17Roots = append(c17Roots, &c17Root{k, c, der})
 		}
+		// root 3: a CA certificate that the repository's x509 parses with a NON-FATAL error only (its subjectAltName holds an
+		// iPAddress of 5 bytes); log clients that return it accept chains ending in it like any other root
+		k, err := ecdsa.GenerateKey(elliptic.P256(), rand.Reader)
+		if err != nil {
+			panic(err)
+		}
+		tmpl := &stdx509.Certificate{
+			SerialNumber: big.NewInt(4), Subject: pkix.Name{CommonName: "verif root 3 (odd SAN)"},
+			NotBefore: time.Date(2015, 1, 1, 0, 0, 0, 0, time.UTC), NotAfter: time.Date(2045, 1, 1, 0, 0, 0, 0, time.UTC),
+			IsCA: true, BasicConstraintsValid: true, KeyUsage: stdx509.KeyUsageCertSign, SubjectKeyId: []byte{3, 3, 3, 3},
+			ExtraExtensions: []pkix.Extension{{Id: asn1.ObjectIdentifier{2, 5, 29, 17}, Value: []byte{0x30, 0x07, 0x87, 0x05, 1, 2, 3, 4, 5}}},
+		}
+		der, err := stdx509.CreateCertificate(rand.Reader, tmpl, tmpl, &k.PublicKey, k)
+		if err != nil {
+			panic(err)
+		}
+		if pc, perr := x509.ParseCertificate(der); pc == nil || perr == nil || x509.IsFatal(perr) {
+			panic(fmt.Sprintf("root 3 is expected to parse with a non-fatal error only, got cert=%v err=%v", pc != nil, perr))
+		}
+		c17Roots = append(c17Roots, &c17Root{k, tmpl, der}) // the template stands in as issuer when leaves are signed
 	})
 	return c17Roots
 }
@@ -309,6 +329,9 @@ func c17GenDist(r *verifkit.Rand) *c17DistScenario {
 	}
 	sc.disabled = r.Intn(8) == 0
 	sc.rootIdx = r.Intn(3)
+	if r.Intn(6) == 0 {
+		sc.rootIdx = 3 // the root with the non-fatal parse quirk
+	}
 	sc.withRoot = r.Bool()
 	sc.isPre = r.Intn(5) == 0
 	sc.asPre = sc.isPre
@@ -355,7 +378,7 @@ func c17GenDist(r *verifkit.Rand) *c17DistScenario {
 		}
 		switch x := r.Intn(20); {
 		case x < 13:
-			l.roots = []int{0, 1, 2}
+			l.roots = []int{0, 1, 2, 3}
 		case x < 16:
 			l.roots = []int{sc.rootIdx}
 		case x < 18:
@@ -402,7 +425,7 @@ func c17GenDist(r *verifkit.Rand) *c17DistScenario {
 			if l.rootsErr || r.Intn(2) == 0 {
 				continue
 			}
-			l.hasFirst, l.firstRoots = true, []int{0, 1, 2}
+			l.hasFirst, l.firstRoots = true, []int{0, 1, 2, 3}
 			if r.Intn(2) == 0 {
 				l.roots = []int{(sc.rootIdx + 1) % 3} // the chain's root is gone from this log
 			}
@@ -563,6 +586,51 @@ func c17DistOracle(out *verifkit.Out, tag string, sc *c17DistScenario, res *c17R
 	}
 }
 
+// c17Feasible: does the usable, temporally and root compatible part of the scenario's log list satisfy the policy's group
+// minima? Only answered (true) when the root clause is unambiguous: checking disabled, or the chain's root is in the known
+// root set of some log that has a client.
+func c17Feasible(sc *c17DistScenario) (bool, string) {
+	accepts := func(l *c17DLog) bool {
+		for _, r := range l.roots {
+			if r == sc.rootIdx {
+				return true
+			}
+		}
+		return false
+	}
+	inPool := false
+	for _, l := range sc.logs {
+		if l.status >= 1 && l.status <= 3 && !l.rootsErr && accepts(l) {
+			inPool = true
+		}
+	}
+	if !sc.disabled && !inPool {
+		return false, ""
+	}
+	g, ng := 0, 0
+	seen := map[string]bool{}
+	for _, l := range sc.logs {
+		if l.status != int(loglist3.UsableLogStatus) || seen[l.url] {
+			continue
+		}
+		if iv := l.interval; iv != nil && !(!sc.na.Before(iv.StartInclusive) && sc.na.Before(iv.EndExclusive)) {
+			continue
+		}
+		if !sc.disabled && !l.rootsErr && !accepts(l) {
+			continue
+		}
+		seen[l.url] = true
+		if l.google {
+			g++
+		} else {
+			ng++
+		}
+	}
+	total := c17PolicyTotal(c17Months(sc.nb, sc.na))
+	ok := g+ng >= total && (sc.policy == "a" || (g >= 1 && ng >= 1))
+	return ok, fmt.Sprintf("compatible logs: %d Google, %d other; policy total %d; chain root %d", g, ng, total, sc.rootIdx)
+}
+
 func c17RunDist(sc *c17DistScenario) (*c17Result, string) {
 	res := &c17Result{}
 	setupErr := ""
@@ -651,6 +719,14 @@ func c17DistCases(out *verifkit.Out, r *verifkit.Rand, n int) {
 			ans = "accept"
 		} else if len(res.contacts) > 0 {
 			out.Fail("dist/contacts-before-refusal "+tag, ans+" | "+line)
+		}
+		// a refusal before any log is contacted is only legitimate when the compatible part of the list cannot satisfy the policy
+		// (evaluated here from the scenario itself, for the cases where root checking is off or the chain's root is accepted by
+		// some log with known roots, i.e. the chain verifies): "when enough compatible logs answer … it reports success"
+		if (ans == "badchain" || ans == "nogroups") && sc.isPre == sc.asPre {
+			if ok, why := c17Feasible(sc); ok {
+				out.Fail("dist/refused-although-enough-compatible-logs "+tag, ans+": "+res.err.Error()+" | "+why+" | "+line)
+			}
 		}
 		out.T(line, ans)
 		out.Count("mode:dist-" + sc.policy + "-" + strings.SplitN(ans, ":", 2)[0])
@@ -744,7 +820,7 @@ func c17CompatCases(out *verifkit.Out, r *verifkit.Rand, n int) {
 	var rootCerts []*x509.Certificate
 	for _, rt := range pki {
 		c, err := x509.ParseCertificate(rt.der)
-		if err != nil {
+		if x509.IsFatal(err) {
 			panic(err)
 		}
 		rootCerts = append(rootCerts, c)
